@@ -76,6 +76,8 @@ Qed.
 
 Lemma slice_app_l' {A} (a b : list A) n : n = len a -> slice (Some 0) (Some n) (a ++ b) = a.
 Proof. intros ->. apply slice_app_l. Qed.
+Lemma slice_app_r_len {A} (a b : list A) k : k = len a -> slice (Some k) None (a ++ b) = b.
+Proof. intros ->. apply slice_app_r. Qed.
 Lemma index_field {A} (fs : list (list A)) (i : nat) k x tl : (i < length fs)%nat -> k = off fs i ->
   nth i fs [] = x :: tl -> index (concat fs) k = Ok x.
 Proof.
